@@ -202,6 +202,16 @@ def run(F, tier, res):
             if not others <= excl.get(i, set()):
                 good = False
                 res.violate('GROUPS', 'variant=%s;exclusive=%d' % (var, i), 'separator groups are not alternatives of one alternation in the %s regex' % var, where=F.bodies[mk]['mir']['span']['at'])
+        # the path group is greedy: of several `name.ext<sep>` candidates in a line the LAST one ends the path (a directory such as
+        # `zlib-1.2-11-gfe6a/` looks like a hit; the documented guarantee resolves it by taking the longest path)
+        try:
+            lazy = rx.lazy_repeats_in_group(pat, 1)
+        except rx.RxError:
+            lazy = 0
+        if lazy:
+            good = False
+            res.violate('GREEDY', 'variant=%s' % var, 'the file-path group of the %s grep regex contains a lazy repetition: the path stops at the first `name.ext` followed by a separator '
+                        'instead of the last, so a look-alike inside a directory name splits the path' % var, where=F.bodies[mk]['mir']['span']['at'])
         if good:
             ok += 1
         samples.append('%s: groups=%d mandatory=%s' % (var, ng, sorted(k for k, v in g.items() if v['mandatory'])))
